@@ -5,25 +5,28 @@ Shuffle / PebblingFormula ▸ `to_dimacs_file`).  Quantified over EVERY argv tok
 (`Env`: stdin content, file system as a function, header strings) and EVERY input text.
 
   (a) how a run can end            `cnfshuffle_outcome`, `k2p_outcome` (complete case lists),
-                                   `tool_never_escapes_partial` (+ the two proven counter-models that make it partial),
+                                   `tool_never_escapes_cnfshuffle`, `tool_never_escapes_k2p` (FULL statements),
   (b) what a successful run wrote  `tool_output_readable_cnfshuffle`, `k2p_ok_spec` (`C17.tool_output_readable_k2p`),
-  (·) the report                   `report_prefix_*` (the prefix the tools really use — not the comment marker).
+  (·) the report                   `report_prefix_cnfshuffle`, `report_prefix_k2p`: every report carries the comment marker.
 
 The composition with C09 (the written formula is the shuffle of the formula read) is in Props/C09/Tools.lean, the one
 with C03 / C14 / C17 (pebbling formula of the DAG read, unsatisfiable, same call as `cnfgen peb`) in
 Props/C17/Tools.lean.
 
-Findings kept as theorems about the model of the code as it is (notes/C18_tools.md):
-  C18-T1  an option written `-o=--` / `-o--` / `--output=--` / `-i=--` stores `[]` (argparse quirk) and the tool dies with
-       AttributeError                                              → `dashdash_value_escapes`
-  C18-T2  an input that opens but cannot be read (OSError) is swallowed by `main()`: exit status 0, nothing written
-                                                                   → `unreadable_input_is_silent`
-  C18-T3  the reports of the two tools do not carry the comment marker → `report_prefix_cnfshuffle`, `report_prefix_k2p`
+Three defects found with this model are FIXED in /repo; the model follows the fixed code and the former failing inputs are
+kept as regression statements (notes/C18_tools.md):
+  C18-T1 (3772171)  an option written `-o=--` / `-o--` / `--output=--` / `-i=--` stored `[]` (argparse quirk) and the tool died
+                    with AttributeError; now a reported error                → `dashdash_value_regression`
+  C18-T2 (e014bd6)  an input that opens but cannot be read (OSError) was swallowed by `main()`: exit status 0, nothing
+                    written; now a reported error                            → `unreadable_input_regression`
+  C18-T3 (0ec5c04)  the reports of the two tools did not carry the comment marker; now every one does
+                                                                             → `report_prefix_cnfshuffle`, `report_prefix_k2p`
 -/
 import Props.C06.Text
 import Props.C09
 import Props.C14
 import Lemmas.Tools
+import CnfgenModel.Cli.Msg
 namespace Cnfgen.C18
 open Cnfgen Cnfgen.IO Cnfgen.Cli.ToolArgs Cnfgen.Cli.Tools Cnfgen.ToolsL
 
@@ -88,50 +91,38 @@ def shuffleHdr (env : Env) (name : String) : Shuffle.Header :=
 
 /-- everything `cnfshuffle` does after a successful parse, case by case (`st` = the namespace) -/
 theorem shuffleBody_cases (env : Env) (st : Args) (ds : List Shuffle.Draw) :
-    (st.input = .nil ∧ shuffleBody env st ds = .escaped "AttributeError") ∨
-    (∃ u n, inputOf env st = some (.unreadable, u, n) ∧ shuffleBody env st ds = .silent) ∨
-    (∃ u n, inputOf env st = some (.undecodable, u, n) ∧ shuffleBody env st ds = .cliError .reader "") ∨
-    (∃ s u n, inputOf env st = some (.text s, u, n) ∧ readDimacsText u s = .error .valueError ∧
-      shuffleBody env st ds = .cliError .reader "") ∨
-    (∃ s u n F, inputOf env st = some (.text s, u, n) ∧ readDimacsText u s = .ok F ∧
+    (∃ u n, inputOf env st = (.unreadable, u, n) ∧ shuffleBody env st ds = .cliError .parser "c ") ∨
+    (∃ u n, inputOf env st = (.undecodable, u, n) ∧ shuffleBody env st ds = .cliError .reader "c ") ∨
+    (∃ s u n, inputOf env st = (.text s, u, n) ∧ readDimacsText u s = .error .valueError ∧
+      shuffleBody env st ds = .cliError .reader "c ") ∨
+    (∃ s u n F, inputOf env st = (.text s, u, n) ∧ readDimacsText u s = .ok F ∧
       shuffleBody env st ds =
         match Shuffle.run F (toolArg st.noFlips) (toolArg st.noVperm) (toolArg st.noCperm) ds with
         | none => .badDraws
         | some (.error e, _) => errOutcome "" e
         | some (.ok G, _) => writeOut st G (shuffleHdr env n)) := by
   unfold shuffleBody
-  cases hin : inputOf env st with
-  | none =>
-    left
-    refine ⟨?_, rfl⟩
-    unfold inputOf at hin
-    cases hi : st.input with
-    | nil => rfl
-    | stdin => rw [hi] at hin; simp at hin
-    | file p => rw [hi] at hin; simp at hin
-  | some x =>
-    obtain ⟨c, u, n⟩ := x
-    right
-    cases c with
-    | unreadable => left; exact ⟨u, n, rfl, rfl⟩
-    | undecodable => right; left; exact ⟨u, n, rfl, rfl⟩
-    | text s =>
-      right; right
-      cases hr : readDimacsText u s with
-      | error e =>
-        left
-        have := read_error_is_valueError u s e hr
-        subst this
-        exact ⟨s, u, n, rfl, hr, by simp [hr, errOutcome]⟩
-      | ok F =>
-        right
-        refine ⟨s, u, n, F, rfl, hr, ?_⟩
-        simp only [hr, shuffleHdr]
-        rcases Shuffle.run F (toolArg st.noFlips) (toolArg st.noVperm) (toolArg st.noCperm) ds with _ | ⟨⟨e | G⟩, r⟩ <;> rfl
+  rcases hin : inputOf env st with ⟨c, u, n⟩
+  cases c with
+  | unreadable => left; exact ⟨u, n, rfl, rfl⟩
+  | undecodable => right; left; exact ⟨u, n, rfl, rfl⟩
+  | text s =>
+    right; right
+    cases hr : readDimacsText u s with
+    | error e =>
+      left
+      have := read_error_is_valueError u s e hr
+      subst this
+      exact ⟨s, u, n, rfl, hr, by simp [hr, errOutcome]⟩
+    | ok F =>
+      right
+      refine ⟨s, u, n, F, rfl, hr, ?_⟩
+      simp only [hr, shuffleHdr]
+      rcases Shuffle.run F (toolArg st.noFlips) (toolArg st.noVperm) (toolArg st.noCperm) ds with _ | ⟨⟨e | G⟩, r⟩ <;> rfl
 
 /-- with legal draws: the formula read is shuffled by the arguments the draws determine, and written -/
 theorem shuffleBody_legal (env : Env) (st : Args) (ds : List Shuffle.Draw) (s : IO.Str) (u : Bool) (n : String)
-    (F : CNF) (hin : inputOf env st = some (.text s, u, n)) (hF : readDimacsText u s = .ok F)
+    (F : CNF) (hin : inputOf env st = (.text s, u, n)) (hF : readDimacsText u s = .ok F)
     (fl vp cp : List Int) (hl : LegalDraws st F ds fl vp cp) :
     ∃ G, Shuffle.shuffle F fl vp cp = .ok G ∧ Shuffle.Valid F fl vp cp ∧
       (st.noFlips = true → fl = List.replicate F.nvars 1) ∧ (st.noVperm = true → vp = Shuffle.iota 1 F.nvars) ∧
@@ -148,45 +139,17 @@ theorem shuffleBody_legal (env : Env) (st : Args) (ds : List Shuffle.Draw) (s : 
 
 /-- `AllLegal env argv ds`: whatever formula the command line makes the tool read, the draws are legal for it -/
 def AllLegal (env : Env) (argv : List String) (ds : List Shuffle.Draw) : Prop :=
-  ∀ st s u n F, parse shuffleSpec (act env) argv {} = .ok st → inputOf env st = some (.text s, u, n) →
+  ∀ st s u n F, parse shuffleSpec (act env) argv {} = .ok st → inputOf env st = (.text s, u, n) →
     readDimacsText u s = .ok F → ∃ fl vp cp, LegalDraws st F ds fl vp cp
 
-/-- no file is unreadable (opens, but reading it raises OSError), nor is standard input -/
-def Readable (env : Env) : Prop := env.stdin ≠ .unreadable ∧ ∀ p, env.file p ≠ some .unreadable
-
-/-- the parse of `argv` binds `[]` to no file option (no `-o=--`, `-o--`, `--output=--`, `-i=--`, … on the line) -/
-def NoDashDashValue (spec : Spec) (env : Env) (argv : List String) : Prop :=
-  ∀ st, parse spec (act env) argv {} = .ok st → st.input ≠ .nil ∧ st.output ≠ .nil
-
-theorem inputOf_not_unreadable (env : Env) (st : Args) (hr : Readable env) (ho : InputOpened env st) (u : Bool)
-    (n : String) : inputOf env st ≠ some (.unreadable, u, n) := by
-  unfold inputOf
-  cases hi : st.input with
-  | nil => simp
-  | stdin => simp only [ne_eq, Option.some.injEq, Prod.mk.injEq, not_and]; intro h; exact absurd h hr.1
-  | file p =>
-    simp only [ne_eq, Option.some.injEq, Prod.mk.injEq, not_and]
-    intro h
-    split at h
-    · cases h
-    · rename_i hnot
-      rcases ho p hi with h1 | h1
-      · exact absurd h1 hnot
-      · cases hf : env.file p with
-        | none => rw [hf] at h1; cases h1
-        | some c => rw [hf] at h; simp at h; exact absurd (h ▸ hf) (hr.2 p)
-
-/-- (a) for cnfshuffle, COMPLETE: every run ends in one of six ways, each with its cause -/
+/-- (a) for cnfshuffle, COMPLETE: every run ends in one of four ways — or the draws are not legal -/
 theorem cnfshuffle_outcome (env : Env) (argv : List String) (ds : List Shuffle.Draw) :
     cnfshuffleRun env argv ds = .help ∨
-    cnfshuffleRun env argv ds = .cliError .parser "" ∨
-    cnfshuffleRun env argv ds = .cliError .reader "" ∨
+    cnfshuffleRun env argv ds = .cliError .parser "c " ∨
+    cnfshuffleRun env argv ds = .cliError .reader "c " ∨
     (∃ d t, cnfshuffleRun env argv ds = .ok d t) ∨
-    (∃ st, parse shuffleSpec (act env) argv {} = .ok st ∧
-      ((cnfshuffleRun env argv ds = .escaped "AttributeError" ∧ (st.input = .nil ∨ st.output = .nil)) ∨
-       (cnfshuffleRun env argv ds = .silent ∧ ∃ u n, inputOf env st = some (.unreadable, u, n)) ∨
-       (∃ s u n F, inputOf env st = some (.text s, u, n) ∧ readDimacsText u s = .ok F ∧
-          ¬ ∃ fl vp cp, LegalDraws st F ds fl vp cp))) := by
+    (∃ st s u n F, parse shuffleSpec (act env) argv {} = .ok st ∧ inputOf env st = (.text s, u, n) ∧
+      readDimacsText u s = .ok F ∧ ¬ ∃ fl vp cp, LegalDraws st F ds fl vp cp) := by
   unfold cnfshuffleRun
   cases hp : parse shuffleSpec (act env) argv {} with
   | error x =>
@@ -196,70 +159,48 @@ theorem cnfshuffle_outcome (env : Env) (argv : List String) (ds : List Shuffle.D
     | sub a b c d => right; left; rfl
   | ok st =>
     simp only
-    rcases shuffleBody_cases env st ds with ⟨hi, hb⟩ | ⟨u, n, hi, hb⟩ | ⟨u, n, _, hb⟩ | ⟨s, u, n, _, _, hb⟩ |
-        ⟨s, u, n, F, hi, hF, hb⟩
-    · right; right; right; right; exact ⟨st, rfl, Or.inl ⟨hb, Or.inl hi⟩⟩
-    · right; right; right; right; exact ⟨st, rfl, Or.inr (Or.inl ⟨hb, u, n, hi⟩)⟩
+    rcases shuffleBody_cases env st ds with ⟨u, n, _, hb⟩ | ⟨u, n, _, hb⟩ | ⟨s, u, n, _, _, hb⟩ | ⟨s, u, n, F, hi, hF, hb⟩
+    · right; left; exact hb
     · right; right; left; exact hb
     · right; right; left; exact hb
     · by_cases hl : ∃ fl vp cp, LegalDraws st F ds fl vp cp
       · obtain ⟨fl, vp, cp, hl⟩ := hl
         obtain ⟨G, _, _, _, _, _, hw⟩ := shuffleBody_legal env st ds s u n F hi hF fl vp cp hl
-        rcases writeOut_cases st G (shuffleHdr env n) with ⟨ho, hx⟩ | ⟨d, _, hx⟩
-        · right; right; right; right; exact ⟨st, rfl, Or.inl ⟨by rw [hw, hx], Or.inr ho⟩⟩
-        · right; right; right; left; exact ⟨d, _, by rw [hw, hx]⟩
-      · right; right; right; right; exact ⟨st, rfl, Or.inr (Or.inr ⟨s, u, n, F, hi, hF, hl⟩)⟩
+        right; right; right; left; exact ⟨_, _, by rw [hw, writeOut_eq]⟩
+      · right; right; right; right; exact ⟨st, s, u, n, F, rfl, hi, hF, hl⟩
 
-/-- (a) `tool_never_escapes` for cnfshuffle, PARTIAL: the run ends in a formula, the help or a reported error —
-for every argv, every environment in which no input is unreadable, all legal draws — PROVIDED the command line gives
-no file option the explicit value `--` (finding C18-T1).  Missing at full strength: exactly the two hypotheses
-`NoDashDashValue` and `Readable`, both necessary (`dashdash_value_escapes`, `unreadable_input_is_silent`). -/
-theorem tool_never_escapes_cnfshuffle_partial (env : Env) (argv : List String) (ds : List Shuffle.Draw)
-    (hdd : NoDashDashValue shuffleSpec env argv) (hr : Readable env) (hl : AllLegal env argv ds) :
-    Clean (cnfshuffleRun env argv ds) := by
-  rcases cnfshuffle_outcome env argv ds with h | h | h | ⟨d, t, h⟩ | ⟨st, hp, h⟩
+/-- (a) `tool_never_escapes` for cnfshuffle, FULL STRENGTH: for every argv token list, every environment (every stdin
+content and file system: missing, undecodable and unreadable files included) and all legal draws, the run ends in a written
+formula, the help, or a reported error.  (Full since the fixes 3772171 and e014bd6 of /repo; `AllLegal` is the only
+assumption on Python's `random`: `choice([-1,1])` answers -1 or 1, `shuffle` permutes its list.) -/
+theorem tool_never_escapes_cnfshuffle (env : Env) (argv : List String) (ds : List Shuffle.Draw)
+    (hl : AllLegal env argv ds) : Clean (cnfshuffleRun env argv ds) := by
+  rcases cnfshuffle_outcome env argv ds with h | h | h | ⟨d, t, h⟩ | ⟨st, s, u, n, F, hp, hi, hF, hno⟩
   · rw [h]; trivial
   · rw [h]; trivial
   · rw [h]; trivial
   · rw [h]; trivial
-  · exfalso
-    rcases h with ⟨_, hn⟩ | ⟨_, u, n, hi⟩ | ⟨s, u, n, F, hi, hF, hno⟩
-    · have := hdd st hp; rcases hn with hn | hn
-      · exact this.1 hn
-      · exact this.2 hn
-    · exact inputOf_not_unreadable env st hr (parse_inputOpened env shuffleSpec argv st hp) u n hi
-    · exact hno (hl st s u n F hp hi hF)
+  · exact absurd (hl st s u n F hp hi hF) hno
 
-/-- the statement of the property for the tool, at full strength … -/
-def ToolNeverEscapesCnfshuffle : Prop :=
-  ∀ (env : Env) (argv : List String) (ds : List Shuffle.Draw), AllLegal env argv ds → Clean (cnfshuffleRun env argv ds)
-
-/-- a small environment: a one-clause formula on stdin, no files -/
+/-- a small environment: the given content on stdin, no files -/
 def demoEnv (stdin : Content) : Env :=
   { stdin := stdin, stdinUniversal := true, stdinName := "<stdin>", file := fun _ => none, writable := fun _ => true,
     generator := "CNFgen", copyright := "(C)", url := "https://massimolauria.net/cnfgen" }
 
-/-- C18-T1 (finding): `cnfshuffle -p -v -c -o=--` on a perfectly good formula dies with AttributeError -/
-theorem dashdash_value_escapes :
-    cnfshuffleRun (demoEnv (.text "p cnf 2 1\n1 -2 0\n".toList)) ["-p", "-v", "-c", "-o=--"] [] =
-      .escaped "AttributeError" := by decide +kernel
+/-- regression (C18-T1, fixed by 3772171): `cnfshuffle -p -v -c -o=--` used to die with AttributeError; the explicit value
+`--` is now a reported command-line error, in every spelling -/
+theorem dashdash_value_regression :
+    cnfshuffleRun (demoEnv (.text "p cnf 2 1\n1 -2 0\n".toList)) ["-p", "-v", "-c", "-o=--"] [] = .cliError .parser "c " ∧
+    cnfshuffleRun (demoEnv (.text "p cnf 2 1\n1 -2 0\n".toList)) ["-o--"] [] = .cliError .parser "c " ∧
+    cnfshuffleRun (demoEnv (.text "p cnf 2 1\n1 -2 0\n".toList)) ["--input=--"] [] = .cliError .parser "c " ∧
+    cnfshuffleRun (demoEnv (.text "p cnf 2 1\n1 -2 0\n".toList)) ["-qS--"] [] = .cliError .parser "c " := by
+  decide +kernel
 
-/-- C18-T2 (finding): an input that cannot be read ends the tool silently with exit status 0 -/
-theorem unreadable_input_is_silent :
-    cnfshuffleRun (demoEnv .unreadable) [] [] = .silent ∧ exitStatus .silent = 0 := by decide +kernel
-
-/-- … is therefore FALSE of the code as it is -/
-theorem tool_never_escapes_cnfshuffle_false : ¬ ToolNeverEscapesCnfshuffle := by
-  intro h
-  have h1 := h (demoEnv .unreadable) [] [] (by
-    intro st s u n F hp hi _
-    have : st = {} := by
-      have : parse shuffleSpec (act (demoEnv .unreadable)) [] {} = .ok {} := rfl
-      rw [this] at hp; cases hp; rfl
-    subst this
-    simp [inputOf, demoEnv] at hi)
-  rw [unreadable_input_is_silent.1] at h1
-  exact h1
+/-- regression (C18-T2, fixed by e014bd6): an input that cannot be read used to end the tool silently with exit status 0;
+it is now a reported error with status 255 -/
+theorem unreadable_input_regression :
+    cnfshuffleRun (demoEnv .unreadable) [] [] = .cliError .parser "c " ∧ exitStatus (.cliError .parser "c ") = 255 := by
+  decide +kernel
 
 /-- (b) for cnfshuffle: when the run ends with exit status 0 and a text `t` written to `d` (legal draws), `t` is the
 DIMACS rendering of a well-formed formula `G` with printable counts — hence the strict reader accepts the written
@@ -269,12 +210,12 @@ every row after it a clause — and `G` is the shuffle of the formula `F` the in
 theorem cnfshuffle_ok_spec (env : Env) (argv : List String) (ds : List Shuffle.Draw) (d : Dest) (t : IO.Str)
     (h : cnfshuffleRun env argv ds = .ok d t) (hl : AllLegal env argv ds) :
     ∃ st s u n F G fl vp cp,
-      parse shuffleSpec (act env) argv {} = .ok st ∧ inputOf env st = some (.text s, u, n) ∧
+      parse shuffleSpec (act env) argv {} = .ok st ∧ inputOf env st = (.text s, u, n) ∧
       readDimacsText u s = .ok F ∧ LegalDraws st F ds fl vp cp ∧
       Shuffle.shuffle F fl vp cp = .ok G ∧ Shuffle.Valid F fl vp cp ∧
       (st.noFlips = true → fl = List.replicate F.nvars 1) ∧ (st.noVperm = true → vp = Shuffle.iota 1 F.nvars) ∧
       (st.noCperm = true → cp = Shuffle.iota 0 F.clauses.length) ∧
-      destOf st.output = some d ∧
+      destOf st.output = d ∧
       t = renderDimacsText G (if st.verbose then some (toIOHeader (shuffleHdr env n)) else none) none ∧
       F.WF ∧ G.WF ∧ C06.Printable G := by
   unfold cnfshuffleRun at h
@@ -283,26 +224,21 @@ theorem cnfshuffle_ok_spec (env : Env) (argv : List String) (ds : List Shuffle.D
   | ok st =>
     rw [hp] at h
     simp only at h
-    rcases shuffleBody_cases env st ds with ⟨_, hb⟩ | ⟨u, n, _, hb⟩ | ⟨u, n, _, hb⟩ | ⟨s, u, n, _, _, hb⟩ |
-        ⟨s, u, n, F, hi, hF, _⟩
-    · rw [hb] at h; cases h
+    rcases shuffleBody_cases env st ds with ⟨u, n, _, hb⟩ | ⟨u, n, _, hb⟩ | ⟨s, u, n, _, _, hb⟩ | ⟨s, u, n, F, hi, hF, _⟩
     · rw [hb] at h; cases h
     · rw [hb] at h; cases h
     · rw [hb] at h; cases h
     · obtain ⟨fl, vp, cp, hleg⟩ := hl st s u n F hp hi hF
       obtain ⟨G, hsh, hV, h1, h2, h3, hw⟩ := shuffleBody_legal env st ds s u n F hi hF fl vp cp hleg
-      rw [hw] at h
-      rcases writeOut_cases st G (shuffleHdr env n) with ⟨_, hx⟩ | ⟨d', hd', hx⟩
-      · rw [hx] at h; cases h
-      · rw [hx] at h
-        cases h
-        obtain ⟨hwf, hpr⟩ := read_wf_printable u s F hF
-        have hGwf : G.WF := C09.result_wf hwf hsh
-        have hGp : C06.Printable G := by
-          unfold C06.Printable
-          rw [C09.nvars_eq hwf hsh, C09.clauses_length_eq hwf hsh]
-          exact hpr
-        exact ⟨st, s, u, n, F, G, fl, vp, cp, rfl, hi, hF, hleg, hsh, hV, h1, h2, h3, hd', rfl, hwf, hGwf, hGp⟩
+      rw [hw, writeOut_eq] at h
+      cases h
+      obtain ⟨hwf, hpr⟩ := read_wf_printable u s F hF
+      have hGwf : G.WF := C09.result_wf hwf hsh
+      have hGp : C06.Printable G := by
+        unfold C06.Printable
+        rw [C09.nvars_eq hwf hsh, C09.clauses_length_eq hwf hsh]
+        exact hpr
+      exact ⟨st, s, u, n, F, G, fl, vp, cp, rfl, hi, hF, hleg, hsh, hV, h1, h2, h3, rfl, rfl, hwf, hGwf, hGp⟩
 
 /-- (b) `tool_output_readable` for cnfshuffle -/
 theorem tool_output_readable_cnfshuffle (env : Env) (argv : List String) (ds : List Shuffle.Draw) (d : Dest)
@@ -324,32 +260,23 @@ theorem errOutcome_prefix (p : String) (e : Err) (src : ErrSrc) (pfx : String)
   split at h <;> cases h
   rfl
 
-theorem writeOut_not_cliError (st : Args) (F : CNF) (hdr : Shuffle.Header) (src : ErrSrc) (pfx : String) :
-    writeOut st F hdr ≠ .cliError src pfx := by
-  unfold writeOut; split <;> simp
+/-- the comment marker of the output format of both tools (DIMACS), from the regenerated table of msg prefixes -/
+theorem comment_marker_dimacs : Cli.prefixOf "dimacs" = "c " := by decide +kernel
 
-theorem shuffleBody_prefix (env : Env) (st : Args) (ds : List Shuffle.Draw) (src : ErrSrc) (pfx : String)
-    (h : shuffleBody env st ds = .cliError src pfx) : pfx = "" := by
-  unfold shuffleBody at h
-  split at h
-  · cases h
-  · cases h
-  · cases h; rfl
-  · split at h
-    · exact errOutcome_prefix _ _ _ _ h
-    · split at h
-      · cases h
-      · exact errOutcome_prefix _ _ _ _ h
-      · exact absurd h (writeOut_not_cliError _ _ _ _ _)
-
-/-- the report of cnfshuffle NEVER carries the comment marker `c ` (finding C18-T3): the prefix is empty in every
-error outcome, whatever the cause -/
+/-- C18's "prefixed with the comment marker", FULL STRENGTH for cnfshuffle (since fix 0ec5c04): whatever makes the run end in
+a report — a refused command line, a file that cannot be opened, an unreadable or undecodable input, a text that denotes no
+formula — every line of the report starts with the comment marker of the output format (legal draws: `Shuffle` itself
+then raises nothing) -/
 theorem report_prefix_cnfshuffle (env : Env) (argv : List String) (ds : List Shuffle.Draw) (src : ErrSrc)
-    (pfx : String) (h : cnfshuffleRun env argv ds = .cliError src pfx) : pfx = "" := by
-  unfold cnfshuffleRun at h
-  cases hp : parse shuffleSpec (act env) argv {} with
-  | error x => rw [hp] at h; cases x <;> cases h <;> rfl
-  | ok st => rw [hp] at h; exact shuffleBody_prefix env st ds src pfx h
+    (pfx : String) (hl : AllLegal env argv ds) (h : cnfshuffleRun env argv ds = .cliError src pfx) :
+    pfx = Cli.prefixOf "dimacs" := by
+  rw [comment_marker_dimacs]
+  rcases cnfshuffle_outcome env argv ds with h' | h' | h' | ⟨d, t, h'⟩ | ⟨st, s, u, n, F, hp, hi, hF, hno⟩
+  · rw [h'] at h; cases h
+  · rw [h'] at h; cases h; rfl
+  · rw [h'] at h; cases h; rfl
+  · rw [h'] at h; cases h
+  · exact absurd (hl st s u n F hp hi hF) hno
 
 /-! non-vacuity: a complete run by the kernel -/
 
@@ -363,12 +290,12 @@ example : cnfshuffleRun (demoEnv (.text "p cnf 1 1\n1 0\n".toList)) ["-pvc"] [] 
       "c url: https://massimolauria.net/cnfgen\nc transformation 1: Formula reshuffling\nc\np cnf 1 1\n1 0\n").toList := by
   decide +kernel
 
-example : cnfshuffleRun (demoEnv (.text "p cnf 1 1\n2 0\n".toList)) [] [] = .cliError .reader "" := by decide +kernel
-example : cnfshuffleRun (demoEnv (.text [])) ["-i", "missing"] [] = .cliError .parser "" := by decide +kernel
-example : cnfshuffleRun (demoEnv (.text [])) ["-i", "missing", "-h"] [] = .cliError .parser "" := by decide +kernel
+example : cnfshuffleRun (demoEnv (.text "p cnf 1 1\n2 0\n".toList)) [] [] = .cliError .reader "c " := by decide +kernel
+example : cnfshuffleRun (demoEnv (.text [])) ["-i", "missing"] [] = .cliError .parser "c " := by decide +kernel
+example : cnfshuffleRun (demoEnv (.text [])) ["-i", "missing", "-h"] [] = .cliError .parser "c " := by decide +kernel
 example : cnfshuffleRun (demoEnv (.text [])) ["-h", "-i", "missing"] [] = .help := by decide +kernel
-example : cnfshuffleRun (demoEnv (.text [])) ["--no"] [] = .cliError .parser "" := by decide +kernel
-example : cnfshuffleRun (demoEnv (.text [])) ["-h", "--no"] [] = .cliError .parser "" := by decide +kernel
+example : cnfshuffleRun (demoEnv (.text [])) ["--no"] [] = .cliError .parser "c " := by decide +kernel
+example : cnfshuffleRun (demoEnv (.text [])) ["-h", "--no"] [] = .cliError .parser "c " := by decide +kernel
 
 /-! ## kthlist2pebbling -/
 
@@ -391,58 +318,44 @@ theorem readDag_ok (u : Bool) (s : IO.Str) (G : GraphFmt.AnyG) (h : readDag u s 
 
 /-- everything `kthlist2pebbling` (without a transformation) does after a successful parse, case by case -/
 theorem k2pBody_cases (env : Env) (st : Args) :
-    (st.input = .nil ∧ k2pBody env st = .escaped "AttributeError") ∨
-    (∃ u n, inputOf env st = some (.unreadable, u, n) ∧ k2pBody env st = .silent) ∨
-    (∃ u n, inputOf env st = some (.undecodable, u, n) ∧ k2pBody env st = .cliError .reader "c ") ∨
-    (∃ s u n, inputOf env st = some (.text s, u, n) ∧ readDag u s = .error .valueError ∧
+    (∃ u n, inputOf env st = (.unreadable, u, n) ∧ k2pBody env st = .cliError .parser "c ") ∨
+    (∃ u n, inputOf env st = (.undecodable, u, n) ∧ k2pBody env st = .cliError .reader "c ") ∨
+    (∃ s u n, inputOf env st = (.text s, u, n) ∧ readDag u s = .error .valueError ∧
       k2pBody env st = .cliError .reader "c ") ∨
-    (∃ s u n D, inputOf env st = some (.text s, u, n) ∧ readDag u s = .ok (.di D) ∧ DiG.Inv D ∧ D.stillDag = true ∧
+    (∃ s u n D, inputOf env st = (.text s, u, n) ∧ readDag u s = .ok (.di D) ∧ DiG.Inv D ∧ D.stillDag = true ∧
       k2pBody env st = writeOut st (Fam.Pebbling.peb D).toCNF (k2pHdr env u s)) := by
   unfold k2pBody
-  cases hin : inputOf env st with
-  | none =>
-    left
-    refine ⟨?_, rfl⟩
-    unfold inputOf at hin
-    cases hi : st.input with
-    | nil => rfl
-    | stdin => rw [hi] at hin; simp at hin
-    | file p => rw [hi] at hin; simp at hin
-  | some x =>
-    obtain ⟨c, u, n⟩ := x
-    right
-    cases c with
-    | unreadable => left; exact ⟨u, n, rfl, rfl⟩
-    | undecodable => right; left; exact ⟨u, n, rfl, rfl⟩
-    | text s =>
-      right; right
-      cases hr : readDag u s with
-      | error e =>
-        left
-        have := readDag_error u s e hr
-        subst this
-        refine ⟨s, u, n, rfl, hr, ?_⟩
-        unfold readDag at hr
-        simp only [hr, errOutcome_valueError]
-      | ok G =>
-        right
-        obtain ⟨D, rfl, hinv, hd, _⟩ := readDag_ok u s G hr
-        refine ⟨s, u, n, D, rfl, hr, hinv, hd, ?_⟩
-        unfold readDag at hr
-        simp only [hr, Fam.Pebbling.pebbling, hd, k2pHdr]
-        rfl
+  rcases hin : inputOf env st with ⟨c, u, n⟩
+  cases c with
+  | unreadable => left; exact ⟨u, n, rfl, rfl⟩
+  | undecodable => right; left; exact ⟨u, n, rfl, rfl⟩
+  | text s =>
+    right; right
+    cases hr : readDag u s with
+    | error e =>
+      left
+      have := readDag_error u s e hr
+      subst this
+      refine ⟨s, u, n, rfl, hr, ?_⟩
+      unfold readDag at hr
+      simp only [hr, errOutcome_valueError]
+    | ok G =>
+      right
+      obtain ⟨D, rfl, hinv, hd, _⟩ := readDag_ok u s G hr
+      refine ⟨s, u, n, D, rfl, hr, hinv, hd, ?_⟩
+      unfold readDag at hr
+      simp only [hr, Fam.Pebbling.pebbling, hd, k2pHdr]
+      rfl
 
-/-- (a) for kthlist2pebbling without a transformation sub-command, COMPLETE -/
+/-- (a) for kthlist2pebbling, COMPLETE: the command line selects a transformation sub-command (outside this model), or
+the run ends in one of four ways -/
 theorem k2p_outcome (env : Env) (argv : List String) :
     (k2pRun env argv = none ∧ ∃ name rest st ex, parse k2pSpec (act env) argv {} = .error (.sub name rest st ex) ∧
         name ∈ transformationNames) ∨
     k2pRun env argv = some .help ∨
-    k2pRun env argv = some (.cliError .parser "") ∨
+    k2pRun env argv = some (.cliError .parser "c ") ∨
     k2pRun env argv = some (.cliError .reader "c ") ∨
-    (∃ d t, k2pRun env argv = some (.ok d t)) ∨
-    (∃ st, parse k2pSpec (act env) argv {} = .ok st ∧
-      ((k2pRun env argv = some (.escaped "AttributeError") ∧ (st.input = .nil ∨ st.output = .nil)) ∨
-       (k2pRun env argv = some .silent ∧ ∃ u n, inputOf env st = some (.unreadable, u, n)))) := by
+    (∃ d t, k2pRun env argv = some (.ok d t)) := by
   unfold k2pRun
   cases hp : parse k2pSpec (act env) argv {} with
   | error x =>
@@ -455,43 +368,28 @@ theorem k2p_outcome (env : Env) (argv : List String) :
       exact sub_name_mem k2pSpec (act env) argv {} a b c d hp transformationNames rfl
   | ok st =>
     simp only
-    rcases k2pBody_cases env st with ⟨hi, hb⟩ | ⟨u, n, hi, hb⟩ | ⟨u, n, _, hb⟩ | ⟨s, u, n, _, _, hb⟩ |
-        ⟨s, u, n, D, _, _, _, _, hb⟩
-    · right; right; right; right; right; exact ⟨st, rfl, Or.inl ⟨by rw [hb], Or.inl hi⟩⟩
-    · right; right; right; right; right; exact ⟨st, rfl, Or.inr ⟨by rw [hb], u, n, hi⟩⟩
+    rcases k2pBody_cases env st with ⟨u, n, _, hb⟩ | ⟨u, n, _, hb⟩ | ⟨s, u, n, _, _, hb⟩ | ⟨s, u, n, D, _, _, _, _, hb⟩
+    · right; right; left; rw [hb]
     · right; right; right; left; rw [hb]
     · right; right; right; left; rw [hb]
-    · rcases writeOut_cases st (Fam.Pebbling.peb D).toCNF (k2pHdr env u s) with ⟨ho, hx⟩ | ⟨d, _, hx⟩
-      · right; right; right; right; right; exact ⟨st, rfl, Or.inl ⟨by rw [hb, hx], Or.inr ho⟩⟩
-      · right; right; right; right; left; exact ⟨d, _, by rw [hb, hx]⟩
+    · right; right; right; right; exact ⟨_, _, by rw [hb, writeOut_eq]⟩
 
-/-- (a) `tool_never_escapes` for kthlist2pebbling, PARTIAL: every command line that does not select a transformation
-sub-command ends in a formula, the help or a reported error, under the same two hypotheses as for cnfshuffle.
-Missing at full strength: the transformation sub-commands (their sub-parsers and `transform_cnf` are outside this
-model: `k2pRun = none`), `NoDashDashValue` (C18-T1) and `Readable` (C18-T2). -/
-theorem tool_never_escapes_k2p_partial (env : Env) (argv : List String)
-    (hdd : NoDashDashValue k2pSpec env argv) (hr : Readable env) :
-    k2pRun env argv = none ∨ ∃ o, k2pRun env argv = some o ∧ Clean o := by
-  rcases k2p_outcome env argv with ⟨h, _⟩ | h | h | h | ⟨d, t, h⟩ | ⟨st, hp, h⟩
-  · left; exact h
-  · right; exact ⟨_, h, trivial⟩
-  · right; exact ⟨_, h, trivial⟩
-  · right; exact ⟨_, h, trivial⟩
-  · right; exact ⟨_, h, trivial⟩
-  · exfalso
-    rcases h with ⟨_, hn⟩ | ⟨_, u, n, hi⟩
-    · have := hdd st hp; rcases hn with hn | hn
-      · exact this.1 hn
-      · exact this.2 hn
-    · exact inputOf_not_unreadable env st hr (parse_inputOpened env k2pSpec argv st hp) u n hi
+/-- (a) `tool_never_escapes` for kthlist2pebbling: for every argv token list and every environment (missing, undecodable,
+unreadable inputs included), a run the model covers ends in a written formula, the help, or a reported error — with NO
+hypothesis (full since the fixes 3772171 and e014bd6 of /repo).  `k2pRun = none` exactly when the command line selects one
+of the 17 transformation sub-commands (`k2p_outcome`): their sub-parsers and `transform_cnf` are outside this model, and
+that is the only thing missing. -/
+theorem tool_never_escapes_k2p (env : Env) (argv : List String) (o : Cli.Tools.Outcome)
+    (h : k2pRun env argv = some o) : Clean o := by
+  rcases k2p_outcome env argv with ⟨h', _⟩ | h' | h' | h' | ⟨d, t, h'⟩ <;> rw [h'] at h <;> cases h <;> trivial
 
 /-- (b) for kthlist2pebbling: when the run ends with exit status 0 and a text `t` written to `d`, the input text denotes a
 DAG `D` (the `dag` kthlist reader accepted it: every edge increasing) and `t` is the DIMACS rendering of the pebbling
 formula of `D`, with the header unless `-q` -/
 theorem k2p_ok_spec (env : Env) (argv : List String) (d : Dest) (t : IO.Str) (h : k2pRun env argv = some (.ok d t)) :
     ∃ st s u n D,
-      parse k2pSpec (act env) argv {} = .ok st ∧ inputOf env st = some (.text s, u, n) ∧
-      readDag u s = .ok (.di D) ∧ DiG.Inv D ∧ D.stillDag = true ∧ destOf st.output = some d ∧
+      parse k2pSpec (act env) argv {} = .ok st ∧ inputOf env st = (.text s, u, n) ∧
+      readDag u s = .ok (.di D) ∧ DiG.Inv D ∧ D.stillDag = true ∧ destOf st.output = d ∧
       t = renderDimacsText (Fam.Pebbling.peb D).toCNF (if st.verbose then some (toIOHeader (k2pHdr env u s)) else none) none := by
   unfold k2pRun at h
   cases hp : parse k2pSpec (act env) argv {} with
@@ -499,30 +397,22 @@ theorem k2p_ok_spec (env : Env) (argv : List String) (d : Dest) (t : IO.Str) (h 
   | ok st =>
     rw [hp] at h
     simp only [Option.some.injEq] at h
-    rcases k2pBody_cases env st with ⟨_, hb⟩ | ⟨u, n, _, hb⟩ | ⟨u, n, _, hb⟩ | ⟨s, u, n, _, _, hb⟩ |
+    rcases k2pBody_cases env st with ⟨u, n, _, hb⟩ | ⟨u, n, _, hb⟩ | ⟨s, u, n, _, _, hb⟩ |
         ⟨s, u, n, D, hi, hr, hinv, hd, hb⟩
     · rw [hb] at h; cases h
     · rw [hb] at h; cases h
     · rw [hb] at h; cases h
-    · rw [hb] at h; cases h
-    · rw [hb] at h
-      rcases writeOut_cases st (Fam.Pebbling.peb D).toCNF (k2pHdr env u s) with ⟨_, hx⟩ | ⟨d', hd', hx⟩
-      · rw [hx] at h; cases h
-      · rw [hx] at h; cases h
-        exact ⟨st, s, u, n, D, rfl, hi, hr, hinv, hd, hd', rfl⟩
+    · rw [hb, writeOut_eq] at h
+      cases h
+      exact ⟨st, s, u, n, D, rfl, hi, hr, hinv, hd, rfl, rfl⟩
 
-/-- the report of kthlist2pebbling carries `c ` exactly when the READER refused the input (the prefix set inside
-`with msg_prefix('c ')` survives the exception); a refused command line is reported without it (finding C18-T3) -/
+/-- C18's "prefixed with the comment marker", FULL STRENGTH for kthlist2pebbling (since fix 0ec5c04): every report — refused
+command line, file that cannot be opened, unreadable / undecodable input, text that is not a DAG in increasing order —
+carries the comment marker of the output format -/
 theorem report_prefix_k2p (env : Env) (argv : List String) (src : ErrSrc) (pfx : String)
-    (h : k2pRun env argv = some (.cliError src pfx)) :
-    (src = .parser ∧ pfx = "") ∨ (src = .reader ∧ pfx = "c ") := by
-  rcases k2p_outcome env argv with ⟨h', _⟩ | h' | h' | h' | ⟨d, t, h'⟩ | ⟨st, _, h'⟩
-  · rw [h'] at h; cases h
-  · rw [h'] at h; cases h
-  · rw [h'] at h; cases h; left; exact ⟨rfl, rfl⟩
-  · rw [h'] at h; cases h; right; exact ⟨rfl, rfl⟩
-  · rw [h'] at h; cases h
-  · rcases h' with ⟨h', _⟩ | ⟨h', _⟩ <;> rw [h'] at h <;> cases h
+    (h : k2pRun env argv = some (.cliError src pfx)) : pfx = Cli.prefixOf "dimacs" := by
+  rw [comment_marker_dimacs]
+  rcases k2p_outcome env argv with ⟨h', _⟩ | h' | h' | h' | ⟨d, t, h'⟩ <;> rw [h'] at h <;> cases h <;> rfl
 
 /-! non-vacuity -/
 
@@ -535,11 +425,12 @@ example : k2pRun (demoEnv (.text "c pyramid\r\n1\r\n".toList)) [] =
 
 /-- not in increasing order: refused, with the prefixed report -/
 example : k2pRun (demoEnv (.text "2\n1 : 2 0\n2 : 0\n".toList)) [] = some (.cliError .reader "c ") := by decide +kernel
-example : k2pRun (demoEnv (.text "2\n".toList)) ["--bogus"] = some (.cliError .parser "") := by decide +kernel
-example : k2pRun (demoEnv (.text "2\n".toList)) ["nosuch"] = some (.cliError .parser "") := by decide +kernel
+example : k2pRun (demoEnv (.text "2\n".toList)) ["--bogus"] = some (.cliError .parser "c ") := by decide +kernel
+example : k2pRun (demoEnv (.text "2\n".toList)) ["nosuch"] = some (.cliError .parser "c ") := by decide +kernel
 example : k2pRun (demoEnv (.text "2\n".toList)) ["xor", "2"] = none := by decide +kernel
-example : k2pRun (demoEnv (.text "2\n".toList)) ["-i--"] = some (.escaped "AttributeError") := by decide +kernel
-example : k2pRun (demoEnv .unreadable) [] = some .silent := by decide +kernel
+/-- regressions (C18-T1, C18-T2): reported errors now -/
+example : k2pRun (demoEnv (.text "2\n".toList)) ["-i--"] = some (.cliError .parser "c ") := by decide +kernel
+example : k2pRun (demoEnv .unreadable) [] = some (.cliError .parser "c ") := by decide +kernel
 
 end Cnfgen.C18
 
@@ -575,16 +466,7 @@ end Cnfgen.C18
 namespace Cnfgen.C18
 open Cnfgen Cnfgen.IO Cnfgen.Cli.ToolArgs Cnfgen.Cli.Tools Cnfgen.ToolsL
 
-/-! ## non-vacuity of the hypotheses of `tool_never_escapes_cnfshuffle_partial` -/
-
-example (s : IO.Str) : Readable (demoEnv (.text s)) := ⟨by simp [demoEnv], by simp [demoEnv]⟩
-
-example (s : IO.Str) : NoDashDashValue shuffleSpec (demoEnv (.text s)) ["-q", "--no-p", "-vc"] := by
-  intro st h
-  have : parse shuffleSpec (act (demoEnv (.text s))) ["-q", "--no-p", "-vc"] {} =
-      .ok { verbose := false, noFlips := true, noVperm := true, noCperm := true } := rfl
-  rw [this] at h; cases h
-  exact ⟨by simp, by simp⟩
+/-! ## non-vacuity of the hypothesis of `tool_never_escapes_cnfshuffle` -/
 
 /-- with the three switches on the command line the only legal draw list is the empty one, for whatever is read -/
 example (s : IO.Str) : AllLegal (demoEnv (.text s)) ["-p", "-v", "-c"] [] := by
@@ -595,20 +477,11 @@ example (s : IO.Str) : AllLegal (demoEnv (.text s)) ["-p", "-v", "-c"] [] := by
   exact ⟨List.replicate F.nvars 1, Shuffle.iota 1 F.nvars, Shuffle.iota 0 F.clauses.length,
     [], [], [], rfl, ⟨rfl, rfl⟩, ⟨rfl, rfl⟩, ⟨rfl, rfl⟩⟩
 
-/-- … and so the theorem applies: a clean end for every text on standard input -/
-example (s : IO.Str) : Clean (cnfshuffleRun (demoEnv (.text s)) ["-p", "-v", "-c"] []) := by
-  apply tool_never_escapes_cnfshuffle_partial
-  · intro st h
-    have : parse shuffleSpec (act (demoEnv (.text s))) ["-p", "-v", "-c"] {} =
-        .ok { noFlips := true, noVperm := true, noCperm := true } := rfl
-    rw [this] at h; cases h
-    exact ⟨by simp, by simp⟩
-  · exact ⟨by simp [demoEnv], by simp [demoEnv]⟩
-  · intro st s' u n F hp _ _
-    have : parse shuffleSpec (act (demoEnv (.text s))) ["-p", "-v", "-c"] {} =
-        .ok { noFlips := true, noVperm := true, noCperm := true } := rfl
-    rw [this] at hp; cases hp
-    exact ⟨List.replicate F.nvars 1, Shuffle.iota 1 F.nvars, Shuffle.iota 0 F.clauses.length,
-      [], [], [], rfl, ⟨rfl, rfl⟩, ⟨rfl, rfl⟩, ⟨rfl, rfl⟩⟩
+/-- a command line that the parser refuses makes `AllLegal` hold for every draw list: the theorem applies to all of them -/
+example (c : Content) (ds : List Shuffle.Draw) : Clean (cnfshuffleRun (demoEnv c) ["-o=--"] ds) := by
+  apply tool_never_escapes_cnfshuffle
+  intro st s u n F hp _ _
+  have : parse shuffleSpec (act (demoEnv c)) ["-o=--"] {} = .error .error := rfl
+  rw [this] at hp; cases hp
 
 end Cnfgen.C18
